@@ -19,8 +19,8 @@ func TestClearDuringChain(t *testing.T) { vkit.Check(t, collDuring, GenDuring, R
 
 func TestMain(m *testing.M) { vkit.Main(m) }
 
-func TestRawGraph(t *testing.T)   { vkit.Check(t, collRaw, Gen, Run) }
-func TestTypedChain(t *testing.T) { vkit.Check(t, collTyped, GenTyped, RunTyped) }
+func TestRawGraph(t *testing.T)          { vkit.Check(t, collRaw, Gen, Run) }
+func TestTypedChain(t *testing.T)        { vkit.Check(t, collTyped, GenTyped, RunTyped) }
 func TestConcurrentReplays(t *testing.T) { vkit.Check(t, collConc, GenConc, RunConc) }
 
 func TestReplay(t *testing.T) {
